@@ -2,11 +2,11 @@ SPECIFICATION Spec
 CONSTANTS
   DepthTable <- DocumentedDepthTable
   MRoutes = {"deepcopy", "clone2", "clone1", "tns_copy", "ctor", "copy", "clone0", "ctor_newns", "extract", "extract_ref"}
-  MOps = {"SetLabel", "SetLength", "SetNodeLabel", "RelabelTaxon", "AddTaxon", "AddAnnotation", "ChangeAnnotation", "ChangeBoundAttr", "Encode", "Structural", "SetCell", "AddComment"}
+  MOps = {"RelabelTaxon", "AnnotateNamespace"}
   MClasses = {"Tree", "TreeList", "Matrix", "Namespace"}
-  MConfigs = {"default"}
-  MaxSteps = 2
-  MaxCopies = 2
+  MConfigs = {"ns_locked", "ns_case", "unrooted", "rooting_none", "weighted", "unlabelled"}
+  MaxSteps = 1
+  MaxCopies = 1
   Bug = "none"
 INVARIANT EqualAfterCopy
 INVARIANT SharingExactlyAsDocumented
